@@ -593,6 +593,29 @@ fn secret_strings(v: &Value, acc: &mut Vec<String>) {
     }
 }
 
+/// does `text` contain `needle` as a value? A needle made of digits only must not be part of a longer run of digits (the proofs hold
+/// thousands of random digits: an eight-digit number occurs inside them by chance once in a few thousand presentations)
+fn contains_value(text: &str, needle: &str) -> bool {
+    if needle.is_empty() {
+        return false;
+    }
+    if !needle.bytes().all(|b| b.is_ascii_digit()) {
+        return text.contains(needle);
+    }
+    let tb = text.as_bytes();
+    let mut from = 0;
+    while let Some(i) = text[from..].find(needle) {
+        let (a, b) = (from + i, from + i + needle.len());
+        let before = a > 0 && tb[a - 1].is_ascii_digit();
+        let after = b < tb.len() && tb[b].is_ascii_digit();
+        if !before && !after {
+            return true;
+        }
+        from = a + 1;
+    }
+    false
+}
+
 pub fn c07(eng: &mut Engine, rng: &mut Rng, thorough: bool, out: &mut Out) -> Cases {
     let mut cases = vec![];
     let n = if thorough { 1500 } else { 80 };
@@ -690,13 +713,13 @@ pub fn c07(eng: &mut Engine, rng: &mut Rng, thorough: bool, out: &mut Out) -> Ca
             let enc = cred.values.0[name].encoded.clone();
             let shown = revealed_names.contains(name);
             for t in &texts {
-                let hit_raw = t.contains(raw.as_str());
-                let hit_enc = enc != *raw && t.contains(enc.as_str());
+                let hit_raw = contains_value(t, raw.as_str());
+                let hit_enc = enc != *raw && contains_value(t, enc.as_str());
                 if !shown && (hit_raw || hit_enc) {
                     out.oracle_fail("value of an attribute the holder did not reveal appears in the presentation", &case, &json!({"attribute": name, "raw": hit_raw, "encoded": hit_enc}));
                 }
             }
-            if shown && !texts.iter().any(|t| t.contains(raw.as_str()) || t.contains(enc.as_str())) {
+            if shown && !texts.iter().any(|t| contains_value(t, raw.as_str()) || contains_value(t, enc.as_str())) {
                 out.oracle_fail("revealed attribute value is missing from the presentation", &case, &json!({"attribute": name}));
             }
         }
